@@ -99,6 +99,20 @@ func codecOf(fn *ssa.Function) map[string]bool {
 				seen[cs.Callee] = true
 				group = append(group, cs.Callee)
 			}
+			// a function handed to a (possibly shared) helper as its per-document encoder / decoder
+			for _, a := range cs.Instr.Common().Args {
+				var f *ssa.Function
+				switch x := a.(type) {
+				case *ssa.Function:
+					f = x
+				case *ssa.MakeClosure:
+					f, _ = x.Fn.(*ssa.Function)
+				}
+				if f != nil && !seen[f] && f.Blocks != nil {
+					seen[f] = true
+					group = append(group, f)
+				}
+			}
 		}
 	}
 	var all []*ssa.Function
@@ -220,11 +234,9 @@ func ruleC05Sep(p *Prog, r *Result) {
 		// the reader splits with that pattern
 		rd := strings.Replace(f.writer, "Marshal", "Unmarshal", 1)
 		uses := false
-		for _, cs := range allCalls([]*ssa.Function{p.Func(rd)}) {
-			if cs.Name == "(*regexp.Regexp).Split" {
-				if g := globalOf(cs.Instr.Common().Args[0]); g != nil && g.Name() == f.re {
-					uses = true
-				}
+		for _, sp := range splittersOf(p, p.Func(rd)) {
+			if g := globalOf(sp.recv); g != nil && g.Name() == f.re {
+				uses = true
 			}
 		}
 		r.Check(uses, "C05.sep", rd+" / splits on "+f.re, p.Pos(p.Func(rd).Pos()), "the reader splits the stream with the pattern the separator was checked against", "the reader does not split on "+f.re)
@@ -498,4 +510,45 @@ func firstness(pt *psRule, pa *Path) int {
 		}
 	}
 	return first
+}
+
+// splitter: how a stream reader cuts its input into documents: the regular expression value whose Split is applied.
+type splitter struct {
+	recv ssa.Value // the *regexp.Regexp value (in the reader's own frame)
+	site ssa.CallInstruction
+}
+
+// splittersOf: the Split calls of the reader itself, and those of a helper the reader hands its pattern to (the
+// helper calls Split on the parameter that receives it).
+func splittersOf(p *Prog, reader *ssa.Function) []splitter {
+	var out []splitter
+	if reader == nil {
+		return out
+	}
+	fns := append([]*ssa.Function{reader}, allAnon(reader)...)
+	for _, cs := range allCalls(fns) {
+		if cs.Name == "(*regexp.Regexp).Split" {
+			out = append(out, splitter{cs.Instr.Common().Args[0], cs.Instr})
+			continue
+		}
+		h := cs.Callee
+		if h == nil || !p.InRepo(h) || h.Blocks == nil || cs.Instr.Common().IsInvoke() {
+			continue
+		}
+		for _, hs := range allCalls(append([]*ssa.Function{h}, allAnon(h)...)) {
+			if hs.Name != "(*regexp.Regexp).Split" {
+				continue
+			}
+			par, ok := hs.Instr.Common().Args[0].(*ssa.Parameter)
+			if !ok {
+				continue
+			}
+			for i, q := range h.Params {
+				if q == par && i < len(cs.Instr.Common().Args) {
+					out = append(out, splitter{cs.Instr.Common().Args[i], cs.Instr})
+				}
+			}
+		}
+	}
+	return out
 }
